@@ -45,6 +45,9 @@ class Side:
         self.on_query = None     # callable(kind, path, result)
         self.behaviour = None    # {sid: value} appended to the function's result (C06: behaviour of a version)
         self.raised = []         # exception objects raised by user code, in order
+        self.stack = []          # sids of the functions currently executing
+        self.trace = {}          # sid -> flattened trace of its dynamic subtree (queries, nested call outcomes)
+        self.outcome = {}        # sid -> 'ok' | 'raised' | 'setup-failed' of the call in this build
 
 
 def _fc(side, name):
@@ -76,6 +79,12 @@ def do_query(b, side, kind, path):
         r = type(e).__name__
     if side.on_query is not None:
         side.on_query(kind, path, r)
+    if side.stack:
+        extra = None
+        if kind == 'read_m' and side.is_ref and not isinstance(r, str):
+            extra = side.fs.nodes[path].mtime
+        for s_ in side.stack:
+            side.trace[s_].append((kind, path, r, extra))
     return r
 
 
@@ -147,6 +156,12 @@ def _args(opts, side, sid):
     return args
 
 
+def _record_outcome(side, sid, what):
+    side.outcome[sid] = what
+    for s_ in side.stack:
+        side.trace[s_].append(('call', sid, what, None))
+
+
 def _do_bf(b, st, side, sid):
     _, rel, opts, body = st
     w = side.world
@@ -155,8 +170,19 @@ def _do_bf(b, st, side, sid):
     name = opts.get('name', 'bf:' + sid)
     content = side.prog.content[sid]
 
+    entered = []
+
     def f(b2, fn, *args):
         side.calls.append(sid)
+        entered.append(1)
+        side.trace[sid] = []
+        side.stack.append(sid)
+        try:
+            return f_body(b2, fn)
+        finally:
+            side.stack.pop()
+
+    def f_body(b2, fn):
         if side.probe is not None:
             side.probe(b2, sid + ':start')
         r = run_body(b2, body, side, sid)
@@ -187,9 +213,13 @@ def _do_bf(b, st, side, sid):
     try:
         cmp = opts.get('cmp')
         if cmp is None:
-            return b.build_file(path, name, f, *args)
-        return b.build_file_with_comparison(path, _fc(side, cmp), name, f, *args)
+            v = b.build_file(path, name, f, *args)
+        else:
+            v = b.build_file_with_comparison(path, _fc(side, cmp), name, f, *args)
+        _record_outcome(side, sid, 'ok')
+        return v
     except Exception as e:
+        _record_outcome(side, sid, 'raised' if entered else 'setup-failed')
         if not opts.get('catch') or isinstance(e, Crash):
             raise
         return 'exc:' + type(e).__name__
@@ -199,8 +229,19 @@ def _do_sb(b, st, side, sid):
     _, name, opts, body = st
     mode = opts.get('mode', 'ok')
 
+    entered = []
+
     def g(b2, *args):
         side.calls.append(sid)
+        entered.append(1)
+        side.trace[sid] = []
+        side.stack.append(sid)
+        try:
+            return g_body(b2)
+        finally:
+            side.stack.pop()
+
+    def g_body(b2):
         r = run_body(b2, body, side, sid)
         if mode == 'raise':
             raise _boom(side)
@@ -210,8 +251,11 @@ def _do_sb(b, st, side, sid):
 
     args = _args(opts, side, sid)
     try:
-        return b.subbuild(name, g, *args)
+        v = b.subbuild(name, g, *args)
+        _record_outcome(side, sid, 'ok')
+        return v
     except Exception as e:
+        _record_outcome(side, sid, 'raised' if entered else 'setup-failed')
         if not opts.get('catch') or isinstance(e, Crash):
             raise
         return 'exc:' + type(e).__name__
